@@ -259,7 +259,7 @@ META = {
                 'non-trivial; distinct = distinct (part, set of (leaf type, '
                 'depth), number of phases, R, spectrum ops, contributions, '
                 'model family)',
-        'probes': ['append_phase', 'reload_run'],
+        'probes': ['append_phase', 'reload_run', 'solution_store_run'],
         'real': ['HDF5Output / HDF5OutputGroup', 'Output.store_dictionary, '
                  'recursively_save_dict_contents_to_output, store_thing',
                  'Binner/FluxBinner/SimpleBinner/NativeBinner '
